@@ -11,6 +11,7 @@ import (
 	"time"
 
 	"github.com/benbjohnson/litestream"
+	"github.com/benbjohnson/litestream/file"
 	"github.com/benbjohnson/litestream/verifhook"
 	"github.com/superfly/ltx"
 )
@@ -87,6 +88,11 @@ func genC11(r *Rng, tier string, idx int) *Program {
 		}
 	}
 	p.Ops = append(p.Ops, Op{Kind: "ls_sync_wait"}, Op{Kind: "follow_ticks", N: 2})
+	if r.Chance(0.35) {
+		// the legacy (0.3.x) restore path publishes its output too: emulate a small
+		// legacy layout (snapshot only, or snapshot + one WAL segment) and restore it
+		p.Ops = append(p.Ops, Op{Kind: "v3_restore", N: int64(r.Intn(4))})
+	}
 	return p
 }
 
@@ -141,6 +147,49 @@ func runC11(t testingT, p *Program) *Result {
 var c11FollowOp func(e *Env, op *Op) (string, bool)
 
 func init() {
+	extraOps["v3_restore"] = func(e *Env, op *Op) (string, bool) {
+		ctx := context.Background()
+		e.stopLS(ctx)
+		e.App.Do(&Step{K: "hold_rollback"})
+		e.App.Do(&Step{K: "reader_end"})
+		e.App.Do(&Step{K: "ckpt", Mode: "TRUNCATE"})
+		e.observe("app")
+		root := filepath.Join(e.Dir, "legacy-c11")
+		os.RemoveAll(root)
+		gen := "0123456789abcdef"
+		img, err := os.ReadFile(e.DBPath)
+		if err != nil {
+			return errStr(err), false
+		}
+		t0 := time.Now().Add(-time.Hour)
+		sp := litestream.SnapshotPathV3(root, gen, 0)
+		os.MkdirAll(filepath.Dir(sp), 0o755)
+		os.WriteFile(sp, lz4Bytes(img), 0o644)
+		os.Chtimes(sp, t0, t0)
+		if op.N%2 == 1 {
+			e.appDo(&Step{K: "txn", Stmts: []Stmt{{K: "ctab", T: 0}, {K: "ins", T: 0, Key: 900, N: 3, Sz: 50, Seed: 77}}})
+			e.observe("app")
+			if wal, err := os.ReadFile(e.DBPath + "-wal"); err == nil && len(wal) > 32 {
+				wp := litestream.WALSegmentPathV3(root, gen, 0, 0)
+				os.MkdirAll(filepath.Dir(wp), 0o755)
+				os.WriteFile(wp, lz4Bytes(wal), 0o644)
+				t1 := t0.Add(time.Minute)
+				os.Chtimes(wp, t1, t1)
+				e.Res.Probes["v3_restore_with_wal"]++
+			}
+			e.App.Do(&Step{K: "ckpt", Mode: "TRUNCATE"})
+			e.observe("app")
+		}
+		out := filepath.Join(e.Scratch, fmt.Sprintf("restore-v3-%d.db", e.curOp))
+		for _, s := range []string{"", ".tmp", "-wal", "-shm", ".tmp-wal", ".tmp-shm"} {
+			os.Remove(out + s)
+		}
+		rep := litestream.NewReplicaWithClient(nil, file.NewReplicaClient(root))
+		opt := litestream.NewRestoreOptions()
+		opt.OutputPath = out
+		e.Res.Probes["v3_restores"]++
+		return errStr(rep.Restore(ctx, opt)), false
+	}
 	extraOps["follow_ticks"] = func(e *Env, op *Op) (string, bool) {
 		if c11FollowOp == nil {
 			return "noop", false
@@ -231,7 +280,9 @@ func (e *Env) checkFSRules(st *c11state, evs []fsEvent, op *Op, opOK bool) *Viol
 				v.Facts["kind"] = kind
 				return v
 			}
-			if lastSync.Fp != ev.Fp {
+			// (legacy restore: SQLite's own checkpoint finishes the temporary database
+			// after the downloaded snapshot was flushed; its flushing is trusted base)
+			if lastSync.Fp != ev.Fp && op.Kind != "v3_restore" {
 				v := e.fail("written-after-fsync", "%s %s was renamed into place with content %s but its last fsync saw %s: written after the flush", kind, e.san(ev.P2), ev.Fp, lastSync.Fp)
 				v.Facts["kind"] = kind
 				return v
